@@ -399,3 +399,65 @@ func (c *Ctx) globalLiteral(pkg string, v *types.Var) *ast.CompositeLit {
 	}
 	return nil
 }
+
+// tableReaders: node x of function g is an element of a composite literal that
+// g stores in a package-level variable (a dispatch table filled by init).  The
+// functions that read the variable are returned; nil when x is not such an
+// element or the variable is also written elsewhere.
+func (c *Ctx) tableReaders(g *core.Func, x ast.Node) []*core.Func {
+	info := g.Info()
+	var lit *ast.CompositeLit
+	for n := c.P.Parent(x); n != nil; n = c.P.Parent(n) {
+		switch y := n.(type) {
+		case *ast.KeyValueExpr, *ast.ParenExpr:
+			continue
+		case *ast.CompositeLit:
+			lit = y
+			continue
+		case *ast.AssignStmt:
+			if lit == nil || len(y.Lhs) != 1 || len(y.Rhs) != 1 || ast.Unparen(y.Rhs[0]) != ast.Expr(lit) {
+				return nil
+			}
+			id, ok := ast.Unparen(y.Lhs[0]).(*ast.Ident)
+			if !ok {
+				return nil
+			}
+			v, ok := info.Uses[id].(*types.Var)
+			if !ok || v.Pkg() == nil || v.Parent() != v.Pkg().Scope() {
+				return nil
+			}
+			var readers []*core.Func
+			writers := 0
+			for _, h := range c.P.Funcs {
+				if h.Pkg != g.Pkg {
+					continue
+				}
+				hi := h.Info()
+				h.OwnNodes(func(z ast.Node) bool {
+					zid, ok := z.(*ast.Ident)
+					if !ok || hi.Uses[zid] != types.Object(v) {
+						return true
+					}
+					if as, isAs := c.P.Parent(zid).(*ast.AssignStmt); isAs {
+						for _, l := range as.Lhs {
+							if l == ast.Expr(zid) {
+								writers++
+								return true
+							}
+						}
+					}
+					if len(readers) == 0 || readers[len(readers)-1] != h {
+						readers = append(readers, h)
+					}
+					return true
+				})
+			}
+			if writers != 1 {
+				return nil
+			}
+			return readers
+		}
+		break
+	}
+	return nil
+}
